@@ -27,7 +27,7 @@ func init() {
 		Word32: true,
 		Level:  "exploration",
 		Rule: "E1 bounded-exhaustive enumeration: (join) per width w in {1,2,4,8,16,32,64}: every value list of length ≤5 over {0,1,^0,0xa5a5…,1<<63}, and for a set of lengths up to 192/w+1 every list that is 0 everywhere except ≤2 positions taken from the non-zero alphabet values: len(Join) = ceil(len·w/64), Getw(result,i,w) = low w bits of values[i] for every i, popcount(result) = Σ popcount(low w bits) (no other bit set); " +
-			"(slice) every bitmap of ≤3 words over {0,^0,1,1<<63,0xdeadbeefcafebabe} × every 0 ≤ from ≤ to ≤ 64·len: result length ceil((to-from)/64), bit j = input bit from+j, all other bits 0, input unchanged. (long) Join on lists filling about 20 (thorough 70) words with ≤2 non-zero values at positions within 1 of a word boundary, and Slice on 20/70-word bitmaps (zero or all-ones with one island at every position) × every range with both ends within 1 of a word boundary. (big) Join on lists and Slice on bitmaps whose lengths lie within 9 of every power of two from 2^10 to 2^14 (Slice: 2^12 words). A case is one Join call with all its Getw probes, or one Slice call; non-trivial when some value/bit is non-zero and the list/range is non-empty.",
+			"(slice) every bitmap of ≤3 words over {0,^0,1,1<<63,0xdeadbeefcafebabe} × every 0 ≤ from ≤ to ≤ 64·len: result length ceil((to-from)/64), bit j = input bit from+j, all other bits 0, input unchanged (the argument carries 3 words of spare capacity holding a canary, which must be intact too). (long) Join on lists filling about 20 (thorough 70) words with ≤2 non-zero values at positions within 1 of a word boundary, and Slice on 20/70-word bitmaps (zero or all-ones with one island at every position) × every range with both ends within 1 of a word boundary. (big) Join on lists and Slice on bitmaps whose lengths lie within 9 of every power of two from 2^10 to 2^14 (Slice: 2^12 words). A case is one Join call with all its Getw probes, or one Slice call; non-trivial when some value/bit is non-zero and the list/range is non-empty.",
 		Assumptions: []string{"other values / word patterns and longer lists are not enumerated"},
 		Run:         c14Run,
 		Judge:       mc.JudgeOf(c14Judge),
@@ -101,13 +101,27 @@ func c14JoinOne(vals []uint64, w int32) (got, want string) {
 
 func c14SliceOne(w []uint64, from, to int32) (got, want string) {
 	keep := append([]uint64(nil), w...)
-	r, p := slice(w, from, to)
+	// The argument handed over has SPARE CAPACITY (3 words beyond its length, holding a canary):
+	// "leaving the input unchanged" covers the caller's backing array, which an append to the
+	// argument or a reslice beyond its length would write to.
+	const canary = 0xC5C5C5C5C5C5C5C5
+	arg := make([]uint64, len(w)+3)
+	copy(arg, w)
+	for i := len(w); i < len(arg); i++ {
+		arg[i] = canary
+	}
+	r, p := slice(arg[:len(w)], from, to)
 	wantLen := (int(to-from) + 63) / 64
 	if p != "" {
 		return p, fmt.Sprintf("%d words", wantLen)
 	}
-	if !eqU64(w, keep) {
-		return "input changed to " + hexs(w), "input unchanged " + hexs(keep)
+	if !eqU64(arg[:len(w)], keep) {
+		return "input changed to " + hexs(arg[:len(w)]), "input unchanged " + hexs(keep)
+	}
+	for i := len(w); i < len(arg); i++ {
+		if arg[i] != canary {
+			return fmt.Sprintf("word %d beyond the length of the input (its spare capacity) changed to %#x", i-len(w), arg[i]), "input unchanged, spare capacity included"
+		}
 	}
 	if len(r) != wantLen {
 		return fmt.Sprintf("%d words", len(r)), fmt.Sprintf("%d words", wantLen)
